@@ -5,6 +5,8 @@
 // adds no behaviour to crs-toolchain.
 package utils
 
+import "bytes"
+
 // SpecBsRun is the number of consecutive backslashes that end right before index i.
 func SpecBsRun(s string, i int) int {
 	if i <= 0 || i > len(s) {
@@ -82,6 +84,22 @@ func OpaqueScanLines(s string) []string {
 	}
 	return out
 }
+
+// OpaqueSplitNL / OpaqueJoinNL: bytes.Split(s, "\n") / bytes.Join(l, "\n")
+// (uninterpreted for the prover; the library functions are assumed to be functions of
+// their arguments).
+func OpaqueSplitNL(s []byte) [][]byte { return bytes.Split(s, []byte("\n")) }
+func OpaqueJoinNL(l [][]byte) []byte  { return bytes.Join(l, []byte("\n")) }
+
+//@ extern bytes.Split
+//@   params s sep
+//@   results r
+//@   ensures implies(sep == "\n", r == OpaqueSplitNL(s))
+
+//@ extern bytes.Join
+//@   params l sep
+//@   results r
+//@   ensures implies(sep == "\n", r == OpaqueJoinNL(l))
 
 // OpaqueJoinLines: strings.Join(l, "\n") (uninterpreted for the prover).
 func OpaqueJoinLines(l []string) string {
